@@ -47,7 +47,9 @@ func TestC16(t *testing.T) {
 							r.Sample(map[string]any{"policy": pol, "size": size, "program": sessprog.ProgString(prog), "distinct_sessions": st[2]})
 						}
 					}
-					if sig != "" {
+					if strings.HasPrefix(sig, "INCONCLUSIVE:") {
+						r.Inconclusive(detail)
+					} else if sig != "" {
 						failed++
 						r.Violation(sig, detail, map[string]any{"engine": "conc/c16", "policy": pol, "size": size, "program": sessprog.ProgString(prog)})
 					}
@@ -228,7 +230,9 @@ func largeCachePrograms(t *testing.T, r *ev.Run) {
 				if st[2] >= 2 {
 					r.Distinct(fmt.Sprintf("large|%s|%d", pol, size))
 				}
-				if sig != "" {
+				if strings.HasPrefix(sig, "INCONCLUSIVE:") {
+					r.Inconclusive(detail)
+				} else if sig != "" {
 					r.Violation(sig, detail, map[string]any{"engine": "conc/c16-large", "policy": pol, "size": size})
 				}
 			})
